@@ -2,6 +2,7 @@
 evidence/<id>.json, prints VIOLATION / KNOWN-FINDING lines.  Exit 0: held; 1: violation; 2: undecided."""
 import os, sys, json, time, shutil, re, concurrent.futures, subprocess
 ROOT = os.path.dirname(os.path.abspath(__file__))
+OUT = os.environ.get('VERIF_OUT', ROOT)      # evidence/ and replays/ go here (seed sweeps redirect them)
 sys.path.insert(0, os.path.join(ROOT, 'emit'))
 import verif
 from configs import CONFIGS, TIERS, QUICK
@@ -68,7 +69,7 @@ def relevant(spec, prop):
 
 
 def write_replay(prop, res, f, extra):
-    d = os.path.join(ROOT, 'replays')
+    d = os.path.join(OUT, 'replays')
     os.makedirs(d, exist_ok=True)
     name = '%s-%s-%s-%s.json' % (prop, res['cfg'], res['fn'], re.sub(r'\W+', '_', f['property']))
     path = os.path.join(d, name)
@@ -202,6 +203,8 @@ def report(prop, tier, cfgs, results, shared, builts, build_errors, compile_viol
         obligations = discharged = 0
         samples = []
         fn_rows = []
+        bounded_rows = []
+        bounded_fns = {n for b in builts.values() for n, sp_ in b.model.specs.items() if sp_.bound is not None}
         for r in sorted(results, key=lambda x: (x['cfg'], x['fn'])):
             if r['status'] == 'undecided':
                 undecided.append('%s/%s: %s' % (r['cfg'], r['fn'], r['reason']))
@@ -210,12 +213,18 @@ def report(prop, tier, cfgs, results, shared, builts, build_errors, compile_viol
             if prop in WHOLE_CONTRACT_PROPS:
                 # the property is 'the same contract holds under every standard': every obligation of these proofs is one of C17
                 t = [r['obligations'], r['discharged']]
-            obligations += t[0]; discharged += t[1]
+            if r.get('bounded') is not None:
+                # bounded stand-in (loops unwound, unwinding assertions on): reported, never counted among the proved obligations
+                bounded_rows.append({'function': r['fn'], 'configuration': r['cfg'], 'bound': 'caller range of at most %d positions; the function\'s loops unwound %d times with unwinding assertions' % (r['bounded'], r['bounded'] + 1),
+                                     'obligations_of_property': t[0], 'discharged_of_property': t[1], 'status': r['status']})
+            else:
+                obligations += t[0]; discharged += t[1]
             fn_rows.append({'function': r['fn'], 'configuration': r['cfg'], 'source_lines': r.get('lines'),
                             'text_hash': r.get('text_hash'), 'obligations_total': r['obligations'],
                             'obligations_of_property': t[0], 'discharged_of_property': t[1],
                             'solver_s': r.get('solver_s'), 'backend': r['backend'], 'loops_closed_by_contract': r.get('loops', 0),
-                            'replaced_callees': r.get('replaced', [])})
+                            'replaced_callees': r.get('replaced', []), 'bounded_stand_in': r.get('bounded'),
+                            'relies_on_bounded_contracts': [g for g in r.get('replaced', []) if g in bounded_fns]})
             for f in r['failed']:
                 if prop not in f['tags'] and prop not in WHOLE_CONTRACT_PROPS:
                     continue
@@ -244,8 +253,8 @@ def report(prop, tier, cfgs, results, shared, builts, build_errors, compile_viol
             print('KNOWN-FINDING: property=%s %s [%s]' % (prop, kf['what'], kf['id']))
         vio_paths = []
         for cn, msg in compile_violations:
-            os.makedirs(os.path.join(ROOT, 'replays'), exist_ok=True)
-            path = os.path.join(ROOT, 'replays', '%s-%s-does-not-instantiate.json' % (prop, cn))
+            os.makedirs(os.path.join(OUT, 'replays'), exist_ok=True)
+            path = os.path.join(OUT, 'replays', '%s-%s-does-not-instantiate.json' % (prop, cn))
             json.dump({'property': prop, 'configuration': cn, 'failed_obligation': 'instantiation TU %s compiles' % CONFIGS[cn]['tu'], 'compiler_output': msg[-6000:]}, open(path, 'w'), indent=1)
             print('VIOLATION property=%s replay=%s no-failing-input-found' % (prop, path))
             print('  configuration %s (%s) does not instantiate: the header requires more of the element type than the operations used document' % (cn, CONFIGS[cn]['tu']))
@@ -307,7 +316,7 @@ def report(prop, tier, cfgs, results, shared, builts, build_errors, compile_viol
                 'functions_not_lowered': not_under,
                 'known_findings_hit': sorted({k['id'] for k, _, _ in known_hits}),
                 'known_finding_obligations': [{'id': k['id'], 'function': r['fn'], 'configuration': r['cfg'], 'obligation': f['property'], 'clause': f.get('clause')} for k, r, f in known_hits],
-                'bounded_stand_ins': [],
+                'bounded_stand_ins': bounded_rows,
                 'conversion_grid': extra_rows,
                 'explanation': 'Obligations are CBMC properties (contract clauses, loop-invariant base/step, assigns, automatic arithmetic and pointer checks, environment preconditions) tagged with this property, over the C text extracted from /repo on this run. Each proof is complete for all inputs of its configuration class (loops closed by loop contracts; no unwinding bound).',
             },
@@ -318,8 +327,8 @@ def report(prop, tier, cfgs, results, shared, builts, build_errors, compile_viol
         if obligations == 0 and exit_code == 0:
             print('UNDECIDED: no obligation tagged %s was generated' % prop)
             exit_code = 2
-        os.makedirs(os.path.join(ROOT, 'evidence'), exist_ok=True)
-        json.dump(ev, open(os.path.join(ROOT, 'evidence', prop + '.json'), 'w'), indent=1)
+        os.makedirs(os.path.join(OUT, 'evidence'), exist_ok=True)
+        json.dump(ev, open(os.path.join(OUT, 'evidence', prop + '.json'), 'w'), indent=1)
         print('%s %s: %d proofs, %d/%d obligations of %s discharged, %d violations, %d known findings, %d undecided, %.0fs' % (
             prop, tier, len(results), discharged, obligations, prop, len(violations), len(printed), len(undecided), wall))
         return exit_code
